@@ -759,6 +759,56 @@ theorem chunks_keep_counterexample :
       ≠ some "own sample" := by
   decide
 
+/-! ## 5c. Provenance; the config's augmentation flag -/
+
+/-- **sample_provenance**: the `i`-th sample is made from the `i`-th entry of the index list and
+carries *that* labelled frame's `frame_idx`, `video_idx` (the position of the frame's own video
+in `labels.videos`) and size, next to that frame's keypoints — so `(video_idx, frame_idx)` of a
+sample locates the labelled frame its keypoints come from.  With `getitem_eq_spec_build` this is
+what `ds[i]` returns after any read history. -/
+theorem sample_provenance (cfg : Cfg R) (cast : Nat → R) (fs : List (Frame R)) (i : Nat) :
+    (cfg.kind = .centered → ∀ ij f, (instanceIdxList cfg.userOnly fs)[i]? = some ij → fs[ij.1]? = some f →
+      ∃ m, specSample cfg cast fs i =
+          some (applySteps (cfg.steps cast) (specCenteredCached cfg cast f ij.2).1, m) ∧
+        m.frameIdx = f.frameIdx ∧ m.videoIdx = f.videoIdx ∧ m.H = f.H ∧ m.W = f.W) ∧
+    (cfg.kind ≠ .centered → ∀ fi f, (lfIdxList cfg.userOnly fs)[i]? = some fi → fs[fi]? = some f →
+      ∃ m, specSample cfg cast fs i =
+          some (applySteps (cfg.steps cast) (specFrameCached cfg cast (cfg.maxInst fs) f).1, m) ∧
+        m.frameIdx = f.frameIdx ∧ m.videoIdx = f.videoIdx ∧ m.H = f.H ∧ m.W = f.W) := by
+  constructor
+  · intro hk ij f hi hf
+    refine ⟨(specCenteredCached cfg cast f ij.2).2, ?_, rfl, rfl, rfl, rfl⟩
+    unfold specSample specCache
+    simp [hk, List.getElem?_map, hi, hf]
+  · intro hk fi f hi hf
+    have hs : specCache cfg cast fs = (lfIdxList cfg.userOnly fs).map
+        (fun i => ((fs[i]?).map fun f => specFrameCached cfg cast (cfg.maxInst fs) f).getD noEntry) := by
+      unfold specCache; cases hk2 : cfg.kind <;> simp_all
+    have hm : ∀ x, (specFrameCached cfg cast (cfg.maxInst fs) f).2 = x →
+        x.frameIdx = f.frameIdx ∧ x.videoIdx = f.videoIdx ∧ x.H = f.H ∧ x.W = f.W := by
+      intro x hx
+      subst hx
+      unfold specFrameCached
+      cases cfg.kind <;> exact ⟨rfl, rfl, rfl, rfl⟩
+    refine ⟨(specFrameCached cfg cast (cfg.maxInst fs) f).2, ?_, hm _ rfl⟩
+    unfold specSample
+    rw [hs, List.getElem?_map, hi]
+    simp [hf]
+
+/-- **config_flag_irrelevant**: `data_config.use_augmentations_train` is not an input of the
+dataset: the rebinding steps (augmentation included), the specified sample, the length and the
+built state are the same whatever the flag says — augmentation is switched by the constructor
+argument `apply_aug` alone (with `apply_aug = false` no augmentation step runs, whatever `aug`). -/
+theorem config_flag_irrelevant (cfg : Cfg R) (cast : Nat → R) (b : Bool) (aug : List (Step R))
+    (fs : List (Frame R)) (i : Nat) :
+    ({ cfg with cfgAugFlag := b }).stepsAug cast aug = cfg.stepsAug cast aug ∧
+    specSample { cfg with cfgAugFlag := b } cast fs i = specSample cfg cast fs i ∧
+    specLen { cfg with cfgAugFlag := b } fs = specLen cfg fs ∧
+    build .repaired { cfg with cfgAugFlag := b } cast fs = build .repaired cfg cast fs ∧
+    (cfg.applyAug = false → cfg.stepsAug cast aug = cfg.steps cast) := by
+  refine ⟨rfl, rfl, rfl, rfl, fun h => ?_⟩
+  simp [Cfg.stepsAug, h]
+
 /-! ## 6. A labelled keypoint keeps its confidence-map peak whatever the other animals lack
 
 Over any linearly ordered `S` and any kernel (C01 owns the Gaussian: `0 < cm ≤ 1`, `= 1` iff the
